@@ -14,6 +14,7 @@ import plotly.figure_factory as ff
 import plotly.graph_objects as go
 
 from .base_facility import BaseFacilityState
+from .base_priority_rule import ResourcePriorityRuleMode, WorkplacePriorityRuleMode
 from .base_task import BaseTask, BaseTaskDependency, BaseTaskState
 from .base_worker import BaseWorkerState
 from .base_subproject_task import BaseSubProjectTask
@@ -128,6 +129,23 @@ class BaseWorkflow(object, metaclass=abc.ABCMeta):
                         output_task_list=j["output_task_list"],
                         allocated_team_list=j["allocated_team_list"],
                         allocated_workplace_list=j["allocated_workplace_list"],
+                        workplace_priority_rule=WorkplacePriorityRuleMode(
+                            j.get(
+                                "workplace_priority_rule",
+                                int(WorkplacePriorityRuleMode.FSS),
+                            )
+                        ),
+                        worker_priority_rule=ResourcePriorityRuleMode(
+                            j.get(
+                                "worker_priority_rule", int(ResourcePriorityRuleMode.MW)
+                            )
+                        ),
+                        facility_priority_rule=ResourcePriorityRuleMode(
+                            j.get(
+                                "facility_priority_rule",
+                                int(ResourcePriorityRuleMode.SSP),
+                            )
+                        ),
                         need_facility=j["need_facility"],
                         target_component=j["target_component"],
                         default_progress=j["default_progress"],
@@ -177,6 +195,23 @@ class BaseWorkflow(object, metaclass=abc.ABCMeta):
                         output_task_list=j["output_task_list"],
                         allocated_team_list=j["allocated_team_list"],
                         allocated_workplace_list=j["allocated_workplace_list"],
+                        workplace_priority_rule=WorkplacePriorityRuleMode(
+                            j.get(
+                                "workplace_priority_rule",
+                                int(WorkplacePriorityRuleMode.FSS),
+                            )
+                        ),
+                        worker_priority_rule=ResourcePriorityRuleMode(
+                            j.get(
+                                "worker_priority_rule", int(ResourcePriorityRuleMode.MW)
+                            )
+                        ),
+                        facility_priority_rule=ResourcePriorityRuleMode(
+                            j.get(
+                                "facility_priority_rule",
+                                int(ResourcePriorityRuleMode.SSP),
+                            )
+                        ),
                         need_facility=j["need_facility"],
                         target_component=j["target_component"],
                         default_progress=j["default_progress"],
